@@ -1,6 +1,7 @@
 package config
 
 import (
+	"errors"
 	"fmt"
 	"io"
 	"strconv"
@@ -58,6 +59,9 @@ func DecodeMap(bytes []byte) (*AmmoConfig, error) {
 func ExtractVariableStorage(cfg *AmmoConfig) (*vs.SourceStorage, error) {
 	storage := vs.NewVariableStorage()
 	for _, source := range cfg.VariableSources {
+		if source == nil {
+			return storage, errors.New("empty variable source")
+		}
 		err := source.Init()
 		if err != nil {
 			return storage, err
